@@ -319,7 +319,9 @@ class BaseEngine(abc.ABC):
 
         ancillae_samples = None
         if isinstance(self.backend, BosonicBackend):
-            ancillae_samples = self.backend.ancillae_samples_dict.copy()
+            ancillae_samples = {
+                k: list(v) for k, v in self.backend.ancillae_samples_dict.items()
+            }
 
         samples = {"output": [self.samples]}
         result = Result(samples, samples_dict=self.samples_dict, ancillae_samples=ancillae_samples)
